@@ -16,6 +16,9 @@ def dispatch(prop, tier, replay):
         if extra:
             extra(rep, tier)
         return rep.finish()
+    if prop == "C20":
+        from . import check_c20
+        return check_c20.check(tier).finish()
     raise common.MachineryError("no check registered for %s" % prop)
 
 
